@@ -17,7 +17,7 @@ fn accessor_events(tr: &mut Tracer, a: &Value, full: bool) {
         if a["s"].as_i64().unwrap() >= 0 {
             tr.emit(json!({"op": "new", "form": "from_biguint", "a": a}));
         }
-        for f in ["as_bigint_and_exponent", "as_bigint_and_scale", "into_bigint_and_exponent", "into_bigint_and_scale", "to_ref_to_owned", "clone", "clone_into"] {
+        for f in ["as_bigint_and_exponent", "as_bigint_and_scale", "into_bigint_and_exponent", "into_bigint_and_scale", "to_ref_to_owned", "clone", "clone_into", "clone_into_equal"] {
             tr.emit(json!({"op": "parts", "form": f, "a": a}));
         }
         if a.get("e").and_then(|e| e.as_i64()) == Some(0) {
